@@ -115,13 +115,13 @@ func C04(p *ir.Program, r *report.R) {
 			v := ir.Render(s.Val)
 			switch v {
 			case "pv.LastSignature":
-				c.Guards(name, "release stored signature", s.Instr,
+				c.GuardsS(name, "release stored signature", s,
 					G{"same-hrs", hrs + "#0"}, G{"hrs-no-error", "eq(" + hrs + "#1,nil)"})
 				c.GuardsAny(name, "release stored signature", "same-bytes-or-timestamp-only", s.Instr,
 					"bytes.Equal("+sp.sb+",pv.LastSignBytes)", "bytes.Equal(pv.LastSignBytes,"+sp.sb+")",
 					sp.helper+"(pv.LastSignBytes,"+sp.sb+")#1")
 			case signRes:
-				c.Guards(name, "release fresh signature", s.Instr, G{"sign-no-error", "eq(crypto.PrivKey.Sign(pv.PrivKey," + sp.sb + ")#1,nil)"})
+				c.GuardsS(name, "release fresh signature", s, G{"sign-no-error", "eq(crypto.PrivKey.Sign(pv.PrivKey," + sp.sb + ")#1,nil)"})
 				// persist-before-release, on the paths where persisting is requested
 				isSave := ir.CallMatcher("types.FilePV.saveSigned")
 				found, _, tr := ir.FindPath(ir.PathQuery{From: ir.At(sign), Target: func(in ssa.Instruction) bool { return in == s.Instr }, Avoid: isSave,
